@@ -25,6 +25,7 @@
 #include "vclock.hpp"
 #include <fix8/f8includes.hpp>
 #include <sys/select.h>
+#include <sys/time.h>
 #include <sys/stat.h>
 #include <sys/wait.h>
 #include <unistd.h>
@@ -372,6 +373,54 @@ int main()
 				atomic_long_set(&q.seqP[it->second.idx], (it->second.pw + q.mask + 1));
 				g_pending.erase(it);
 				out("ret=1");
+			}
+			else if (w.size() == 3 && w[0] == "quick")
+			{
+				// <trials> times: create a logger, submit <n> lines from the creating thread and call stop() AT ONCE - the writer thread may not
+				// have started running yet; every accepted line must be in the file when stop() has returned (free-running, no parking)
+				if (lg) { release_consumer(); if (!stopped) delete lg; lg = 0; ::unlink(path.c_str()); }
+				g_script = 0;
+				const unsigned trials(std::stoul(w[1])), n(std::stoul(w[2]));
+				unsigned good(0);
+				for (unsigned tr(0); tr < trials; ++tr)
+				{
+					Cfg c2; parse_cfg("file", "31", "s", c2);
+					std::string p2;
+					Logger *l2(make_logger(c2, p2));
+					unsigned acc(0);
+					for (unsigned i(0); i < n; ++i) if (l2->send("q" + std::to_string(tr) + "-" + std::to_string(i), Logger::Info)) ++acc;
+					l2->stop();
+					const std::vector<std::string> ls(read_lines(p2));
+					delete l2;
+					::unlink(p2.c_str());
+					if (acc == n && ls.size() == n) ++good;
+				}
+				out("quick ok=" + std::to_string(good) + " of " + std::to_string(trials));
+				stopped = false;
+			}
+			else if (w.size() == 1 && w[0] == "djoin")
+			{
+				// regression of the repaired defect `destructor-joins-twice`: stop() joins the writer thread; the destructor of the thread
+				// member used to join the same pthread_t again - by then the id may belong to an unrelated thread (glibc reuses the
+				// descriptor), which the destructor then waits for, and whose owner's join fails
+				if (lg) { release_consumer(); if (!stopped) delete lg; lg = 0; ::unlink(path.c_str()); }
+				g_script = 0;
+				Cfg c2; parse_cfg("file", "31", "s", c2);
+				std::string p2;
+				Logger *l2(make_logger(c2, p2));
+				l2->send("one");
+				l2->stop();
+				pthread_t t;
+				struct S { static void *nap(void *) { real_nap(300000); real_nap(300000); real_nap(300000); return 0; } };
+				pthread_create(&t, 0, S::nap, 0);
+				timeval a, b; ::gettimeofday(&a, 0);
+				delete l2;
+				::gettimeofday(&b, 0);
+				const double dt((b.tv_sec - a.tv_sec) + (b.tv_usec - a.tv_usec) / 1e6);
+				const int rc(pthread_join(t, 0));
+				::unlink(p2.c_str());
+				out(std::string("dtor=") + (dt < 0.5 ? "prompt" : "waited") + " join=" + std::to_string(rc));
+				stopped = false;
 			}
 			else if (w.size() == 1 && w[0] == "run" && lg)
 			{
